@@ -35,14 +35,16 @@ SPEC = Spec(
          "consumers; every 16th case 8-40 consumers), read-only/mutable input, failure patterns, synchronous and asynchronous writers, "
          "one undeclared writer, on RANDOM payloads (1-3 resources, nested attribute values, several item kinds) with every write at one "
          "of 6 mutation sites; every 4th case the SAME fan-out object is used for 2-3 payloads in a row (other content, other input "
-         "mode); a mutating consumer's object must equal the sent bytes plus its OWN writes replayed on a private copy; plus EXHAUSTIVE "
+         "mode); in half of the cases (and 2/3 of the exhaustive scope) the fan-out is built from a long-lived caller-owned slice that "
+         "must be unchanged after New*, is then overwritten with foreign consumers (which must never be invoked) and, in mode 2, re-used "
+         "as scratch for a second fan-out before data is sent through the first; a mutating consumer's object must equal the sent bytes plus its OWN writes replayed on a private copy; plus EXHAUSTIVE "
          "capability vectors of length <= 5 (quick) / <= 8 (thorough) x input mode x undeclared-writer position; non-trivial = mixed "
          "mutating/non-mutating vector. router / xrouter: connector.New{Logs,Metrics,Traces}Router and xconnector.NewProfilesRouter: "
          "(a) which selections Consumer(ids...) accepts (empty, unknown ids, repeats) vs routerSelect, (b) the returned consumer on "
          "random pipeline sets, selections (half of them a single pipeline; every 8th with a pipeline selected twice or more), failing "
          "consumers, capability read from the returned consumer, vs the fan-out model, (c) histories on ONE router object: the route is "
-         "requested, 1-2 more routes are requested from the same router, then the payload is sent on the first; plus every capability "
-         "vector <= 3 x every single selection. exporter / xexporter: exporters built with exporterhelper.New{Logs,Traces,Metrics} and "
+         "requested, 1-2 more routes are requested from the same router, then the payload is sent on the first; the caller's consumer map is overwritten with foreign consumers right after "
+         "New*Router; plus every capability vector <= 3 x every single selection. exporter / xexporter: exporters built with exporterhelper.New{Logs,Traces,Metrics} and "
          "xexporterhelper.NewProfilesExporter from random option lists (own declarations in option order, sending_queue::batch, legacy "
          "batcher on/off, disabled queue with a batch section, both, neutral options, random order): advertised MutatesData vs "
          "exporterCap and exporterCapH (defaults regenerated from the source). processor / xprocessor: processors built with "
